@@ -350,6 +350,28 @@ def replay_bad_done(pid, source, exe_name, what, mode):
     print(("VIOLATION property=%s replay=(replayed)" % pid) if c.v else "no violation on the current tree")
     return 1 if c.v else 0
 
+
+def visible_internal_helpers(dump_text):
+    """Table dump lines 'NODE id enabled named nsubs subs... | head' / 'NAME id hex(demangled name) ...': every class template
+    in namespace tao::pegtl::internal is an implementation helper with enable_control = false (the user-visible rule is the
+    struct deriving from it); a helper that the control can see changes hook logs and parse trees.  Returns the offenders."""
+    enabled, bad = {}, []
+    for l in dump_text.split("\n"):
+        if l.startswith("NODE "):
+            t = l[5:].split("|", 1)[0].split()
+            if len(t) >= 2:
+                enabled[t[0]] = t[1]
+        elif l.startswith("NAME "):
+            t = l.split()
+            if len(t) >= 3:
+                try:
+                    nm = bytes.fromhex(t[2]).decode("latin1")
+                except ValueError:
+                    continue
+                if nm.startswith("tao::pegtl::internal::") and enabled.get(t[1]) == "1":
+                    bad.append(nm)
+    return bad
+
 class BuildError(RuntimeError):
     pass
 
